@@ -49,6 +49,21 @@ const IND_FINITE: &[&str] = &[
 /// replica is no oracle for them near their singular points, see DESIGN.md Corrections) and the recursive SAR
 const IND_RECURSIVE: &[&str] = &["ParabolicSAR", "ChandeMomentumOscillator", "MoneyFlowIndex", "RelativeStrengthIndex"];
 
+/// every indicator with a reference model is also run on long streams against that model (values within the tracked
+/// bounds, whose drift terms grow linearly with t; signals in three-valued logic with counters of unbounded width).
+/// The two indicators with known documentation deviations are left to C05/C06.
+pub fn ind_model() -> Vec<&'static str> {
+	crate::c05::modelled().into_iter().filter(|n| !matches!(*n, "KeltnerChannel" | "TrendStrengthIndex")).collect()
+}
+
+fn base_runs(tier: Tier) -> u64 {
+	let slots = (WINDOWED.len() + RECURSIVE.len() + IND_FINITE.len() + IND_RECURSIVE.len()) as u64;
+	match tier {
+		Tier::Quick => slots * 3,
+		Tier::Thorough => slots * 6,
+	}
+}
+
 pub fn regen(case: &Case) -> Vec<In> {
 	let r = Rng::new(case.feed_seed);
 	let len = case.len as usize;
@@ -57,7 +72,7 @@ pub fn regen(case: &Case) -> Vec<In> {
 	cfg.seg = cfg.seg.max(50) * 20; // long regimes: the faults lie far in the past of late positions
 	let mut fc = FaultCount::new();
 	let name = case.sut.as_str();
-	if case.shape == 1 {
+	if case.shape == 1 || case.shape == 3 {
 		let cs = feed::trend_ripple(&mut r.sub("values"), len);
 		return match (case.cfg.is_some(), sut::method(name.trim_end_matches('0')).map(|i| i.input)) {
 			(true, _) | (_, Some(InKind::Candle)) => feed::to_in_candles(&cs),
@@ -191,13 +206,42 @@ impl Check for C07 {
 		"C07"
 	}
 	fn runs(&self, tier: Tier) -> u64 {
-		let slots = (WINDOWED.len() + RECURSIVE.len() + IND_FINITE.len() + IND_RECURSIVE.len()) as u64;
-		match tier {
-			Tier::Quick => slots * 3,
-			Tier::Thorough => slots * 6,
-		}
+		base_runs(tier) + ind_model().len() as u64 * if tier == Tier::Quick { 4 } else { 16 }
 	}
 	fn generate(&self, root: &Rng, i: u64, tier: Tier) -> Case {
+		if i >= base_runs(tier) {
+			// model family: (indicator, configuration, long regime feed | long one-sided trend)
+			let names = ind_model();
+			let j = i - base_runs(tier);
+			let name = names[(j % names.len() as u64) as usize];
+			let k = j / names.len() as u64;
+			let run = root.sub_i("run", i);
+			let mut r = run.sub("config");
+			let info = ieng::indicator(name).unwrap();
+			let def = (info.default_cfg)();
+			let first = In::c(100.0, 101.0, 99.0, 100.5, 1000.0);
+			let mut chosen = def.clone();
+			if k >= 2 || r.chance(0.5) {
+				for _ in 0..12 {
+					let c = cfgmut::mutate(&def, &mut r, 0.5, 60, None);
+					if matches!(guarded(|| (info.validate)(&c)), Ok(Ok(true))) && matches!(guarded(|| (info.make)(&c, &first)), Ok(Ok(_))) {
+						chosen = c;
+						break;
+					}
+				}
+			}
+			let len = if tier == Tier::Quick { 70_000 + r.below(50_000) } else { 150_000 + r.below(250_000) };
+			return Case {
+				sut: name.to_string(),
+				params: Params::Len(cfgmut::max_period_in(&chosen)),
+				cfg: Some(chosen),
+				feed_seed: run.sub("feed").next_u64(),
+				len,
+				fault_free: k % 4 == 3,
+				late_points: 0,
+				shape: 2 + (k % 2) as u8,
+			};
+		}
 		let slots = WINDOWED.len() + RECURSIVE.len() + IND_FINITE.len() + IND_RECURSIVE.len();
 		let s = (i % slots as u64) as usize;
 		let k = i / slots as u64;
@@ -281,6 +325,18 @@ impl Check for C07 {
 			return vs;
 		}
 		let name = case.sut.as_str();
+		if case.shape >= 2 {
+			let mc = mcase(case, stream);
+			stats.fault(if case.shape == 3 { "feed:long_one_sided_trend" } else { "feed:long_regime_stream" });
+			stats.cover(format!("{name}|model|{}|len~1e{}", if case.shape == 3 { "trend" } else { "regimes" }, (len as f64).log10().round() as u32));
+			return crate::c05::refine("C07", &mc, stats, true, true)
+				.into_iter()
+				.map(|v| {
+					let t = v.step;
+					v.tag("length", case.params.len()).tag("position_decade", format!("1e{}", (t as f64).max(1.0).log10().floor() as u32)).tag("beyond_1e6", "no").tag("oracle", "reference_model")
+				})
+				.collect();
+		}
 		let base = name.trim_end_matches('0');
 		stats.suts.insert(name.to_string());
 		let mc = mcase(case, Vec::new());
@@ -522,6 +578,9 @@ impl Check for C07 {
 		 PeriodType::MAX-1..MAX+1, 60/300 seeded late positions and the end of the run - exact for selections, indices and signals, allowance D(t) = c_m*u*(n+t)*S linear in t for \
 		 arithmetic; recursive kinds are compared with their free-running recurrence at every step; (b) late join: a fresh real instance created from the input `depth` steps \
 		 before each checkpoint and fed the last window must agree with the long-running one (finite-window methods and indicators configured with finite-window averages). \
+		 (c) model family: every indicator that has a reference model (all but the two with documented deviations) is run for 7*10^4..4*10^5 candles - a long regime stream or one \
+		 long one-sided trend with a ripple (thousands of consecutive same-side pivots / bars in a zone) - against that model at every step: values within the tracked bounds, \
+		 signals in three-valued logic with counters of unbounded width; a panic after a long prefix is a violation. \
 		 Coverage tuple = (SUT, length class, decade of the run length). The stream is regenerated from the recorded feed seed (the generator is sequential: shrinking the \
 		 length keeps the prefix)."
 			.into()
@@ -529,7 +588,7 @@ impl Check for C07 {
 	fn assumptions(&self) -> Vec<String> {
 		vec![
 			"replay files carry the feed seed and length instead of 10^6..10^7 explicit values; the generator is a pure function of them".into(),
-			"indicators are compared with a fresh primed replica (and the C12 monitors elsewhere); their reference models belong to C05".into(),
+			"late join compares indicators with a fresh primed replica; the model family (c) reuses the reference indicators of C05/C06 on long streams".into(),
 		]
 	}
 	fn components(&self) -> serde_json::Value {
